@@ -6,13 +6,16 @@ P("C25",
   technique="Coq proof of the translator's address arithmetic (exact tie to the real address translator and TLB) + Coq-verified acceptor of the "
             "translation view with trace inclusion of histories recorded at every component boundary of real stacks",
   level_text="PARTIAL. Kernels, exact: c25_paddr_correct (for every page size 2^k, k<64, aligned frame, 64-bit vaddr: physical address = frame + vaddr mod 2^k, "
-             "offset preserved, same frame; requested page = aligned page containing vaddr), c25_paddr_panics_refuted (k>=64 panics: modulo by 1<<k = 0), c25_model_agreement_implies_property (link of the two evaluators for translator probes); the "
-             "model's at_vpage/at_paddr/tlb_set_id/inval_match are compared output-for-output with a real address translator and a real TLB on every run. "
-             "Stacks, for every accepted history: c25_response_matches_request (every level's response answers a request delivered to that level, goes to its "
-             "source, for the page containing the requested address), c25_page_current_or_permitted, c25_access_reaches_mapped_address (translated access = "
-             "frame + offset of a current or not-yet-invalidated mapping), c25_invalidate_effective (after an acknowledged invalidation of (pid,page) and until it "
-             "is remapped, only the current mapping is used), c25_answered (at the end every request of every level and every access is answered). Tie: histories "
-             "of real stacks (address translator, 1-3 TLBs, optional MMU cache, MMU or GMMU) are evaluated by the acceptor inside Coq.",
+             "offset preserved, same frame; requested page = aligned page containing vaddr), c25_paddr_panics_refuted (k>=64 panics), c25_model_agreement_implies_property and "
+             "c25_kernel_agreement_implies_property (check_case -> holds_on for all kernel probes); at_vpage/at_paddr/tlb_set_id/inval_match are compared output-for-output with a real "
+             "address translator and a real TLB on every run. Stacks, for EVERY accepted history (= every order and delay of the lower levels' answers): "
+             "c25_response_matches_request, c25_page_current_or_permitted, c25_access_reaches_mapped_address, c25_invalidate_effective, c25_invalidate_effective_access, c25_answered, "
+             "c25_answered_at_most_once, c25_translation_exactly_once (every translation request of every level: exactly one response, to its source, with its ID, for its page, with a current or "
+             "not-yet-invalidated mapping), c25_access_exactly_once (every access: forwarded exactly once to frame+offset, then answered exactly once to its requester under its ID), "
+             "c25_coalesced_one_below (below each TLB at most one request per (PID,page) is outstanding: coalesced lookups share one request below and are all answered). The acceptor is "
+             "accepts_stack = translation view + identifiers never reused + the coalescing clause. Tie: histories of real stacks (address translator, 1-3 TLBs, optional MMU cache, MMU or GMMU), "
+             "incl. directed 3-5-way coalesced misses with remap+invalidation in between, are evaluated by the acceptor inside Coq. The liveness half of 'exactly once' is the EEnd clause: "
+             "the run is observed to reach engine quiescence (sampled per run); no fairness assumption is expressible in the trace model.",
   level_note="Unmodelled internals (tied by trace inclusion only): TLB pipeline/MSHR/LRU sets, MMU cache table, MMU/GMMU walk scheduling, address translator "
              "transaction table. Page-table updates are made with the stack quiescent before the Pause->Invalidate->Enable sequence of every caching level (an update "
              "racing with in-flight walks is outside what an acknowledged invalidation can cover); remaps without invalidation are exercised under traffic. "
